@@ -135,7 +135,10 @@ pub fn gen_book(rng: &mut Rng, o: &GenOpts) -> Spreadsheet {
                 }
                 if rng.chance(1, 6) {
                     let mut h = Hyperlink::default();
-                    if rng.chance(2, 3) {
+                    if rng.chance(1, 8) {
+                        // a link that only carries a tooltip: external, with an empty target
+                        h.set_tooltip(rand_text(rng, "tip &<>\"", 1, 6));
+                    } else if rng.chance(2, 3) {
                         h.set_url(format!("https://example.com/{}?a=1&b={}", rand_text(rng, "az09<'", 0, 4), rng.below(100)));
                     } else {
                         let tgt = names[rng.below(names.len() as u64) as usize].clone();
@@ -284,7 +287,7 @@ pub fn view(book: &Spreadsheet) -> String {
                     cells.push(format!("{}/{}/{}/{}", coord, kind, hexs(&c.get_value()), if f.is_empty() { "~".to_string() } else { hexs(f) }));
                 }
                 if let Some(h) = c.get_hyperlink() {
-                    links.push(format!("{}/{}/{}", coord, if *h.get_location() { "l" } else { "e" }, hexs(h.get_url())));
+                    links.push(format!("{}/{}/{}/{}", coord, if *h.get_location() { "l" } else { "e" }, hexs(h.get_url()), hexs(h.get_tooltip())));
                 }
             }
             links.sort();
@@ -375,7 +378,12 @@ pub fn defined_name_text(rng: &mut Rng, names: &[String]) -> String {
 
 fn rich_hyperlink(rng: &mut Rng, names: &[String]) -> Hyperlink {
     let mut h = Hyperlink::default();
-    match rng.below(6) {
+    match rng.below(7) {
+        6 => {
+            // only a tooltip: external, with an empty target
+            h.set_tooltip(rand_text(rng, "tip &<>\"'é ", 1, 8));
+            return h;
+        }
         0..=2 => {
             h.set_url(format!("https://example.com/{}?a={}&b=<{}>", rand_text(rng, "az09é'\" ", 0, 5), rng.below(1000), rng.below(10)));
         }
